@@ -76,7 +76,9 @@ class ScriptedOptimizer(Optimizer):
         ScriptPlugin.started_with = np.array(initial_values, dtype=np.float64).copy()
         mask = self._config.variables.mask
         x0 = initial_values if mask is None else initial_values[mask]
-        for item in ScriptPlugin.script:
+        opts = self._config.optimizer.options
+        script = opts["script"] if isinstance(opts, dict) and "script" in opts else ScriptPlugin.script
+        for item in script:
             if item.get("batch") is not None:
                 x = np.array(item["batch"], dtype=np.float64)
             elif item.get("x") is not None:
